@@ -26,6 +26,9 @@ Dialect rules (the only differences between the verified text and the text that 
   D13 explicit token substitutions given in a directive (`subst="Self::Item=>usize"`), for associated
       types of trait impls the world drops
   D12 assert!/panic! format arguments are dropped (message text is not part of the behaviour verified)
+  D14 (only with `optmap=1`) `RECV.map(|x| BODY)` on an `Option` receiver is unfolded by std's definition of
+      `Option::map`:  `(match RECV { Some(x) => Some(BODY), None => None })`  — Verus has no closures that capture `&mut`.
+      Trusted: that definition (the closure runs exactly once, on the `Some` payload).
 """
 import json
 import os
@@ -257,10 +260,62 @@ def transform_body(body, d, log, pre_stmt=""):
         body = rule_D7(body, log, bases)
     else:
         body = rule_D12(body, log)
+    if d.get("optmap") == "1":
+        body = rule_D14(body, log)
     if pre_stmt:
         assert body.lstrip().startswith("{")
         k = body.index("{")
         body = body[:k + 1] + "\n        " + pre_stmt + body[k + 1:]
+    return body
+
+
+def rule_D14(body, log):
+    """Unfold `RECV.map(|x| BODY)` (closure literal with one plain identifier parameter) by Option::map's definition."""
+    n = 0
+    while True:
+        m = re.search(r"\.\s*map\s*\(\s*\|\s*([a-z_][a-z0-9_]*)\s*\|", body)
+        if not m:
+            break
+        # closing parenthesis of the call
+        k = body.index("(", m.start())
+        depth, j = 0, k
+        while j < len(body):
+            if body[j] in "([{":
+                depth += 1
+            elif body[j] in ")]}":
+                depth -= 1
+                if depth == 0:
+                    break
+            j += 1
+        if j >= len(body):
+            raise ExtractError("D14: unbalanced `.map(` call")
+        clo = body[m.end():j].strip()
+        # receiver: maximal postfix chain to the left (identifiers, field access, calls without closures)
+        i = m.start()
+        while i > 0:
+            c = body[i - 1]
+            if c.isalnum() or c in "_.:":
+                i -= 1
+            elif c == ")":
+                d2, q = 0, i - 1
+                while q >= 0:
+                    if body[q] == ")":
+                        d2 += 1
+                    elif body[q] == "(":
+                        d2 -= 1
+                        if d2 == 0:
+                            break
+                    q -= 1
+                i = q
+            else:
+                break
+        recv = body[i:m.start()].strip()
+        if not recv:
+            raise ExtractError("D14: `.map(|x| ..)` without a receiver expression")
+        body = body[:i] + f"(match {recv} {{ Some({m.group(1)}) => Some({clo}), None => None }})" + body[j + 1:]
+        n += 1
+    if n:
+        log.append(f"D14 x{n}")
     return body
 
 
